@@ -1349,18 +1349,26 @@ class Executor(Generic[TContext]):
                     append_awaitable(index)
 
                 index += 1
-        except (Exception, CancelledError):
+        except (Exception, CancelledError) as error:
             # Also close the iterator when we are cancelled while iterating
             # (e.g. because a sibling field failed), not only on errors.
             if early_return is not None:  # pragma: no branch
                 with suppress_exceptions:
                     await early_return()
             if awaitable_indices:
-                # Settle any awaitable items already collected in the background,
-                # so that the current error is not delayed.
-                self.settle_in_background(
-                    [completed_results[index] for index in awaitable_indices]
-                )
+                awaitables = [completed_results[index] for index in awaitable_indices]
+                if isinstance(error, CancelledError):
+                    # When cancelled, cancel the awaitable items already collected
+                    # as well and wait until they have settled, like for all other
+                    # cancelled work, so that they are not left running.
+                    futures = [ensure_future(awaitable) for awaitable in awaitables]
+                    for future in futures:
+                        future.cancel()
+                    await gather(*futures, return_exceptions=True)
+                else:
+                    # Settle any awaitable items already collected in the
+                    # background, so that the current error is not delayed.
+                    self.settle_in_background(awaitables)
             raise
 
         if not awaitable_indices:
